@@ -27,6 +27,7 @@ type runner struct {
 
 	ops    []any
 	failed bool
+	book   []string // divergences of internal bookkeeping (TTL maps): reported as drift unless a violation follows
 
 	// auto: broadcasts of the silent sweeps the model performed since the last operation
 	pending   []bcast
@@ -44,7 +45,8 @@ type runner struct {
 }
 
 func (r *runner) fail(prop, sig, what string, step any, si int) {
-	r.res.Violate(prop, sig, fmt.Sprintf("%s (behaviour %d step %d %s; channel options %+v)", what, r.bi, si, vh.J(step), r.cfg),
+	r.res.Violate(prop, sig, fmt.Sprintf("%s (behaviour %d step %d %s; channel options %+v; real time %.2f ticks)", what, r.bi, si, vh.J(step), r.cfg,
+		float64(time.Since(r.base))/float64(r.tick)),
 		map[string]any{"channel": r.ch, "cfg": r.cfg, "manual": r.manual, "steps": r.ops})
 	r.failed = true
 }
@@ -67,7 +69,7 @@ func (r *runner) snapshot() centrifuge.VerifMapSnapshot { return centrifuge.Veri
 
 // propOfMismatch for a divergence that only the sweepers can have caused
 func (r *runner) sweepProp(m mismatch, real []bcast) string {
-	if r.cfg.KTTL > 0 && (m.kind == "state" || r.silentKey || len(real) > 0) {
+	if r.cfg.KTTL > 0 && (m.kind == "state" || m.kind == "deadline" || r.silentKey || len(real) > 0) {
 		return "C24"
 	}
 	return "C20"
@@ -174,6 +176,10 @@ func (r *runner) run(beh []map[string]any) (completed int) {
 			if !r.startSweep(si) {
 				return 0
 			}
+			if r.late(now) { // phase 1 read the clock before the gate was reached
+				r.res.Count("skipped_late", 1)
+				return 0
+			}
 			r.inWindow = true
 			if vh.Int(step["n"]) == 0 {
 				r.inWindow = false
@@ -236,18 +242,26 @@ func (r *runner) run(beh []map[string]any) (completed int) {
 		}
 		if !r.manual {
 			// everything the sweepers had to do by now is done: the channel must equal the model's pre-state
-			real := r.rec.take(r.ch)
+			// (a sweeper that is late under load gets 600 ms of slack; the behaviour is then abandoned as late)
+			var real []bcast
+			for try := 0; ; try++ {
+				real = append(real, r.rec.take(r.ch)...)
+				if try >= 12 || (len(real) >= len(r.pending) && !hard(compareSnapshot(r.snapshot(), prev, r.cfg, r.ep, r.base, r.tick))) {
+					break
+				}
+				time.Sleep(50 * time.Millisecond)
+			}
 			if m := sameBcast(r.pending, real, r.cfg.hasStream()); m != "" {
 				r.fail("C24", "expiry:broadcasts", "between operations (key expiry sweeps): "+m, step, si)
 				return 0
 			}
 			for _, m := range compareSnapshot(r.snapshot(), prev, r.cfg, r.ep, r.base, r.tick) {
 				if m.kind == "book" {
-					r.drift("before "+act+": "+m.what, si)
-				} else {
-					p := r.sweepProp(m, real)
-					r.fail(p, "sweep:"+m.kind, "before "+act+" (after the sweepers ran): "+m.what, step, si)
+					r.book = append(r.book, fmt.Sprintf("step %d before %s: %s", si, act, m.what))
+					continue
 				}
+				p := r.sweepProp(m, real)
+				r.fail(p, "sweep:"+m.kind, "before "+act+" (after the sweepers ran): "+m.what, step, si)
 				return 0
 			}
 			r.pending = nil
@@ -346,7 +360,12 @@ func (r *runner) run(beh []map[string]any) (completed int) {
 				time.Sleep(1200 * time.Microsecond) // distinct millisecond deadlines, as in the model's `seq`
 			}
 		case "Clear":
-			if err := r.b.Clear(bg, r.ch, centrifuge.MapClearOptions{}); err != nil {
+			err := r.b.Clear(bg, r.ch, centrifuge.MapClearOptions{})
+			if r.late(now) {
+				r.res.Count("skipped_late", 1)
+				return 0
+			}
+			if err != nil {
 				r.fail(winProp("C20"), "clear:error", err.Error(), step, si)
 				return 0
 			}
@@ -359,6 +378,10 @@ func (r *runner) run(beh []map[string]any) (completed int) {
 			}
 		case "ReadState":
 			got := doReadState(r.b, r.ch, args, r.ep, r.cfg.Ord)
+			if r.late(now) {
+				r.res.Count("skipped_late", 1)
+				return 0
+			}
 			if (got.Err != "") != vh.Bool(exp["err"]) {
 				r.fail(winProp("C20"), "readstate:error", fmt.Sprintf("ReadState error %q, reference error=%v", got.Err, vh.Bool(exp["err"])), step, si)
 				return 0
@@ -401,6 +424,10 @@ func (r *runner) run(beh []map[string]any) (completed int) {
 			}
 		case "ReadStream":
 			got := doReadStream(r.b, r.ch, args, r.ep)
+			if r.late(now) {
+				r.res.Count("skipped_late", 1)
+				return 0
+			}
 			if (got.Err != "") != vh.Bool(exp["err"]) {
 				r.fail(winProp("C20"), "readstream:error", fmt.Sprintf("ReadStream error %q, reference error=%v", got.Err, vh.Bool(exp["err"])), step, si)
 				return 0
@@ -434,19 +461,35 @@ func (r *runner) run(beh []map[string]any) (completed int) {
 			return 0
 		}
 	}
+	if len(r.book) > 0 {
+		r.drift("internal TTL bookkeeping differs from the model without an observable consequence in this behaviour: "+r.book[0], len(beh)-1)
+		return 0
+	}
 	return 1
 }
 
 func (r *runner) checkSnapshot(st map[string]any, prop, sig string, step any, si int) bool {
 	for _, m := range compareSnapshot(r.snapshot(), st, r.cfg, r.ep, r.base, r.tick) {
 		if m.kind == "book" {
-			r.drift("after "+sig+": "+m.what, si)
+			r.book = append(r.book, fmt.Sprintf("step %d after %s: %s", si, sig, m.what))
+			continue
+		} else if m.kind == "deadline" {
+			r.fail("C24", sig+":deadline", m.what, step, si)
 		} else {
 			r.fail(prop, sig+":"+m.kind, m.what, step, si)
 		}
 		return false
 	}
 	return true
+}
+
+func hard(ms []mismatch) bool {
+	for _, m := range ms {
+		if m.kind != "book" {
+			return true
+		}
+	}
+	return false
 }
 
 func nontrivialKey(ops []any) (string, bool) {
@@ -517,8 +560,8 @@ func replayManual(in json.RawMessage, res *vh.Result) error {
 	if err := json.Unmarshal(in, &behs); err != nil {
 		return err
 	}
-	tick := 250 * time.Millisecond
-	sem := make(chan struct{}, 48)
+	tick := 400 * time.Millisecond
+	sem := make(chan struct{}, 64)
 	var wg sync.WaitGroup
 	for bi, beh := range behs {
 		wg.Add(1)
